@@ -38,6 +38,11 @@ def main():
     if demos and m:
         dst = os.path.join(WT, m.group(1)); shutil.copy(demos[0], dst)
         pkg = "./" + os.path.dirname(m.group(1)) + "/"
+        # a demonstration that needs the race detector / must run alone says so in its README
+        mrun = re.search(r"-run[ =]+([A-Za-z0-9_]+)", readme)
+        if "-race" in readme:
+            pkg = "-race " + ("-run %s " % mrun.group(1) if mrun else "") + pkg
+            ENV["CGO_ENABLED"] = "1"
         rc1, o1 = sh("go test -vet=off -count=1 %s 2>&1 | tail -15" % pkg, cwd=WT)
         demo_with = "FAIL" in o1
         sh(["git", "apply", "-R", patch], cwd=WT)
